@@ -297,6 +297,59 @@ def u5b(led, rid, ctx):
     led.floor(rid, "skip paths examined", n, 4)
 
 
+def u12(led, rid, ctx):
+    """label TABLE of the recursive minimiser: Keep only for predicates of the nogood itself,
+    Removable only after every antecedent has been examined, nothing but Poison before the reason
+    of the predicate has been looked at"""
+    lib = ctx.lib
+    f = lib.method("RecursiveMinimiser", "compute_label")
+    R = resolver(f)
+    cfg = f.cfg
+    reasons = f.calls_named("get_propagation_reason")
+    led.check(len(reasons) == 1, rid, "compute_label:reads-reason", f.span, "",
+              "compute_label no longer looks at the reason of the predicate")
+    if not reasons:
+        return
+    rc = reasons[0]
+    nexts = [c for c in f.calls if c.name == "next" and cfg.dominates(rc.bb, c.bb)]
+    n = 0
+    for c in f.calls_named("assign_predicate_label"):
+        lab = peel(R.operand(c.args[2]), calls=None)
+        name = lab.b if lab.k == "agg" else None
+        n += 1
+        after = cfg.dominates(rc.bb, c.bb)
+        inst = "compute_label:%s:%s" % (name, "after-reason" if after else "before-reason")
+        if name == "Poison":
+            led.ok(rid, inst, c.span, "Poison is always a safe label")
+        elif name == "Keep":
+            g = call_guarded(f, c.bb, "is_predicate_assigned_seen", True)
+            led.check(g is not None, rid, inst, c.span, "guarded by is_predicate_assigned_seen(input)",
+                      "compute_label labels a predicate Keep although it is not known to be part of the "
+                      "nogood being minimised: a Keep antecedent lets other predicates be removed, so a "
+                      "predicate that merely was cut off (depth limit, decision, foreign level) makes "
+                      "the minimised nogood unsound")
+        elif name == "Removable":
+            done = False
+            for nx in nexts:
+                for fa in all_edge_facts_of(f):
+                    if fa.kind == "variant" and fa.val == "None" and peel(fa.atom, calls=None).k == "call" \
+                            and peel(fa.atom, calls=None).a is nx and cfg.dominates(fa.edge.node, c.bb):
+                        done = True
+            led.check(after and done, rid, inst, c.span, "only after the antecedent loop has finished",
+                      "compute_label labels a predicate Removable without having examined every "
+                      "antecedent of its reason")
+        else:
+            led.bad(rid, inst, c.span, "compute_label assigns an unrecognised label %s" % show(lab))
+    led.floor(rid, "label assignments in compute_label", n, 6)
+
+
+def all_edge_facts_of(f):
+    from ..flow import edge_facts
+    for bb in f.cfg.edges:
+        for fa in edge_facts(f, bb):
+            yield fa
+
+
 def run(ctx, led):
     run_rule(led, "U1", "Infeasible is declared only for a conflict at decision level 0", u1, ctx)
     run_rule(led, "U2", "no fabricated reason reference; None reason only for decisions, assumptions, "
@@ -315,3 +368,7 @@ def run(ctx, led):
     run_rule(led, "U8", "every reason the kernel derives for a predicate that is true without being on the trail implies that predicate (TABLE over the implicit-reason match, decided on a small integer window)", predrules.implicit_reasons, ctx)
     run_rule(led, "U9", "Predicate negation is the exact complement on the same variable (TABLE)", predrules.negation_exact, ctx)
     run_rule(led, "U10", "Assignments::evaluate_predicate is exact on every domain shape (TABLE over all 31 domains of a 5-value universe)", predrules.evaluate_exact, ctx)
+    run_rule(led, "U11", "every solve starts from exactly the assumptions it was given (shared with C05-A3)", shared.assumptions_overwritten, ctx)
+    run_rule(led, "U12", "label TABLE of the recursive nogood minimiser", u12, ctx)
+    from . import C07 as _C07
+    run_rule(led, "U13", "no-learning resolver: the flipped decision carries a reason covering every earlier decision level (shared with C07-J7)", _C07.j7, ctx)
